@@ -801,6 +801,10 @@ func goCode(root string, unit string) string {
 		emit("main.go (printRaw, the size poller, the subcommand goroutine, the key loop, the start-up sequence)", text, errs)
 		text, errs = translateResize(parseFile(root, "ui/ui.go"))
 		emit("ui/ui.go ((*State).SetWidthHeight, the size NewState starts with)", text, errs)
+	case "glue":
+		header("Model.GoSem", "Model.GoSlices", "Model.GoJson", "Model.GoText", "Model.GoHtml", "Model.GoGlue", "Model.Mime", "Generated.GoSplicer", "Generated.GoObject", "Generated.GoHypertext")
+		text, errs := translateGlue(root)
+		emit("splicer.NewSplicer, object.GetMarkup, hypertext.NewMarkup, markdown.NewMarkup, style.superscript", text, errs)
 	default:
 		b.WriteString("-- unknown unit " + unit + "\n")
 	}
